@@ -164,6 +164,32 @@ def otsuThreshold (hist : List Nat) (total : Int) : Int :=
   let st := (List.range 256).foldl (fun st (t : Nat) => otsuStep total (sumTotal hist) st t (hist.getD t 0)) {}
   st.threshold
 
+/-! #### Spec of Otsu's optimality: the between-class variance of a candidate bin, in closed form -/
+
+/-- number of pixels in bins `< n` -/
+def cumW (hist : List Nat) : Nat → Int
+  | 0 => 0
+  | n + 1 => cumW hist n + ((hist.getD n 0 : Nat) : Int)
+/-- sum of bin indices over the pixels in bins `< n` -/
+def cumS (hist : List Nat) : Nat → Int
+  | 0 => 0
+  | n + 1 => cumS hist n + (n : Int) * ((hist.getD n 0 : Nat) : Int)
+
+/-- between-class variance of candidate `t` as `otsu_impl` defines it (integer class means: `sum_back / weight_back`
+    is a `ptrdiff_t / size_t` division); 0 when one of the classes is empty (the `continue` / `break` cases) -/
+def otsuVar (hist : List Nat) (total : Int) (t : Nat) : Int :=
+  let wb := cumW hist (t + 1)
+  let wf := total - wb
+  if wb = 0 ∨ wf = 0 then 0
+  else
+    let mb := cumS hist (t + 1) / wb
+    let mf := (cumS hist 256 - cumS hist (t + 1)) / wf
+    wb * wf * (mb - mf) * (mb - mf)
+
+/-- the variance loop after `n` iterations -/
+def otsuRun (hist : List Nat) (total : Int) (n : Nat) : OtsuState :=
+  (List.range n).foldl (fun st (t : Nat) => otsuStep total (sumTotal hist) st t (hist.getD t 0)) {}
+
 /-- `otsu_impl` on one channel: the threshold value passed to `threshold_binary` (already converted to the
     result channel type, which is the source channel type here) -/
 def otsuValue (c : Ch) (trackMax : Bool) (pixels : List Int) : Except UB Int := do
